@@ -6,7 +6,7 @@ import numpy as np
 
 
 class IBM:
-    def __init__(self, modules, kills=None, age=False, logfile=None, marker="sibm", agelimit=None, kill_tags=None, touchfile=None, **kw):
+    def __init__(self, modules, kills=None, age=False, logfile=None, marker="sibm", agelimit=None, kill_tags=None, touchfile=None, dose=False, settle_age=None, **kw):
         self.modules = modules
         self.kills = {int(k): list(v) for k, v in (kills or {}).items()}
         self.kill_tags = {int(k): list(v) for k, v in (kill_tags or {}).items()}
@@ -16,6 +16,7 @@ class IBM:
         self.dt = modules["time"].dt / np.timedelta64(1, "s")
         self.closed = 0
         self.touchfile = touchfile
+        self.dose, self.settle_age = dose, settle_age
 
     def update(self):
         if self.touchfile:
@@ -24,8 +25,12 @@ class IBM:
         st = self.modules["state"]
         step = self.modules["time"].step
         self.log.append(dict(step=step, pid=st.pid.tolist(), alive=st.alive.tolist(), X=st.X.tolist(), Y=st.Y.tolist(), Z=st.Z.tolist()))
+        if self.dose:  # a quantity that depends on where the particle is AFTER the move
+            st["dose"] = st["dose"] + st.X * self.dt
         if self.age:
             st["age"] += self.dt
+            if self.settle_age is not None:  # settled particles stay alive but are not moved any more
+                st["active"] = st.active & (st.age < self.settle_age)
             if self.agelimit is not None:
                 st["alive"] = st.alive & (st.age < self.agelimit)
         dead = self.kills.get(step, [])
